@@ -343,10 +343,13 @@ func (s *Server) parseSearchScanBaseTokens(
 						return
 					}
 					var minx, maxx bool
-					smin = strings.ToLower(smin)
-					smax = strings.ToLower(smax)
-					if smax == "+inf" || smax == "inf" {
+					// (only the keywords are case-insensitive: a JSON or
+					// string operand keeps its letters)
+					if l := strings.ToLower(smax); l == "+inf" || l == "inf" {
 						smax = "inf"
+					}
+					if l := strings.ToLower(smin); l == "-inf" || l == "(-inf" {
+						smin = l
 					}
 					switch smin {
 					case "<", "<=", ">", ">=", "==", "!=":
